@@ -18,7 +18,7 @@ tvars == <<t, l, fails, seen, w, out>>
 Rec == Log[t]
 Ev  == Log[t].events[l]
 
-ClauseNames == {"GridSize", "Kinds", "WindMatches", "WindRoundTrip", "WindDefault",
+ClauseNames == {"GridSize", "Kinds", "KindAndSize", "WindMatches", "WindRoundTrip", "WindDefault",
                 "RavelMatches", "RavelRoundTrip", "KnownAction"}
 
 ObsOk(e) == "ok" \in DOMAIN e.obs
@@ -28,7 +28,11 @@ Matches(obs, spec) ==
   ELSE "err" \in DOMAIN obs
 
 Clause(name, ww, e) ==
-  CASE name = "KnownAction" -> e.a \in {"GridSize", "Kinds", "Wind", "WindDefault", "Ravel"}
+  CASE name = "KnownAction" -> e.a \in {"GridSize", "Kinds", "Wind", "WindDefault", "Ravel", "KindOf"}
+    [] name = "KindAndSize" ->
+         \* what the convention reports for a variable carrying exactly the dimensions of one grid (in any order, with or
+         \* without further dimensions): that grid, and its size
+         e.a = "KindOf" => (ObsOk(e) /\ e.obs.ok.kind = e.kind /\ e.obs.ok.kind2 = e.kind /\ e.obs.ok.size = SpecGridSize(ww)[e.kind])
     [] name = "GridSize" ->
          e.a = "GridSize" => e.obs = SpecGridSize(ww)
     [] name = "Kinds" ->
@@ -54,6 +58,7 @@ SeenOf(ww, e) ==
   {e.a, ww.conv} \cup (IF "obs" \in DOMAIN e /\ e.a \in {"Wind", "WindDefault", "Ravel"} /\ ~ObsOk(e)
                        THEN {"error-path"} ELSE {})
          \cup (IF IsCF(ww) \/ IsArakawa(ww) THEN (IF ww.ny # ww.nx THEN {"non-square"} ELSE {}) ELSE {})
+         \cup (IF "api" \in DOMAIN e THEN {"api-" \o e.api} ELSE {})
          \cup (IF HasEdges(ww) THEN {"ugrid-edges"} ELSE {})
          \cup (IF IsUGrid(ww) /\ ~HasEdges(ww) THEN {"ugrid-no-edges"} ELSE {})
 
@@ -82,7 +87,7 @@ Step ==
 TNext == Step
 TSpec == TInit /\ [][TNext]_tvars
 
-Required == {"GridSize", "Kinds", "Wind", "WindDefault", "Ravel", "error-path", "non-square",
+Required == {"GridSize", "Kinds", "Wind", "WindDefault", "Ravel", "KindOf", "api-unravel_index", "error-path", "non-square",
              "cf1d", "cf2d", "shoc_simple", "shoc_standard", "arakawa", "ugrid",
              "ugrid-edges", "ugrid-no-edges"}
 
